@@ -8,6 +8,7 @@ import warnings
 
 def main():
     module, func, in_path, out_path = sys.argv[1:5]
+    os.environ["NUCS_VERIF_OUT"] = out_path
     warnings.filterwarnings("ignore")
     with open(in_path) as f:
         task = json.load(f)
